@@ -15,6 +15,7 @@
   history length.
 -/
 import Gedcom.Lemmas.CacheMono
+import Gedcom.Lemmas.CacheAlpha
 import Gedcom.Lemmas.CacheEff
 import Gedcom.Props.C01
 namespace Gedcom.C13
@@ -146,6 +147,12 @@ theorem views_fresh_decode (s : St) (h : TInv s) (bom : Bool) (o : Dec.Opts)
       | husband f => cases hn; exact tag_lt (isFam_iff.mp hok) tFAM_ne
       | wife f => cases hn; exact tag_lt (isFam_iff.mp hok) tFAM_ne
       | famChildren f => cases hn; exact tag_lt (isFam_iff.mp hok) tFAM_ne
+      | names i => cases hn; exact wf.roots _ (isIndi_iff.mp hok).1
+      | eventsOf i t =>
+        cases hn
+        simp only [View.ok, Bool.and_eq_true] at hok
+        exact wf.roots _ (isIndi_iff.mp hok.1).1
+      | allEvents i => cases hn; exact wf.roots _ (isIndi_iff.mp hok).1
     rw [views_fresh _ v hinv hok, views_fresh s _ h.1 (ok_iso iso v hs hok), specView_iso iso v hs]
   · intro n hn
     exact att_psi h.1.1.awf h.2.ranked hn
@@ -346,6 +353,85 @@ theorem fresh_individual_example :
     (run Flags.good (initOf childHeap [0, 1]) addChildHistory).2 =
       [.ids [], .none, .ids [some 0], .ids [some 0]] := by decide
 
+/-! ## round 4: the rest of the alphabet — `DeleteNodesWithTag`, subtrees, names and events
+
+  `Op.deleteNodesWithTag`, the views `names` / `eventsOf` / `allEvents` are constructors of `Op` / `View`,
+  so every theorem above (`coherent_step`, `tree_step`, `views_fresh`, `views_fresh_decode`, `reads_pure`,
+  …) already quantifies over them.  What follows is what is specific to them. -/
+
+/-- **`DeleteNodesWithTag(n, t)`**: afterwards the children of `n` are the former ones without those
+    tagged `t`, in the same order (also when matching and other children alternate — the in-place
+    loop this function once was skipped the node after each removed one); nothing else of the
+    document changes. -/
+theorem deleteNodesWithTag_spec (s : St) (n : Nat) (t : Str) (hn : n < s.heap.length) :
+    (abs (step Cache.flags s (.deleteNodesWithTag n t)).1).kids n =
+      ((abs s).kids n).filter (fun c => !((abs s).tag c == t)) ∧
+    (∀ m, m ≠ n → (abs (step Cache.flags s (.deleteNodesWithTag n t)).1).kids m = (abs s).kids m) ∧
+    (∀ m, (abs (step Cache.flags s (.deleteNodesWithTag n t)).1).tag m = (abs s).tag m) ∧
+    (∀ m, (abs (step Cache.flags s (.deleteNodesWithTag n t)).1).value m = (abs s).value m) ∧
+    (∀ m, (abs (step Cache.flags s (.deleteNodesWithTag n t)).1).ptr m = (abs s).ptr m) ∧
+    (abs (step Cache.flags s (.deleteNodesWithTag n t)).1).roots = (abs s).roots ∧
+    (abs (step Cache.flags s (.deleteNodesWithTag n t)).1).heap.length = (abs s).heap.length := by
+  rw [flags_eq]
+  have hok : (Op.deleteNodesWithTag n t).ok (abs s) = true := decide_eq_true hn
+  unfold step
+  rw [if_pos hok]
+  exact deleteKidsWithTag_abs s hn t
+
+/-- … and no view returns a removed node: with whatever was cached before, the children-by-tag
+    lookup for that tag answers the empty list right after the call. -/
+theorem deleted_by_tag_not_viewed (s : St) (n : Nat) (t : Str) (h : Inv s) (hn : n < s.heap.length) :
+    (step Cache.flags (step Cache.flags s (.deleteNodesWithTag n t)).1 (.read (.nodesWithTag n t))).2 =
+      .ids [] := by
+  obtain ⟨hk, _, ht, _, _, _, hl⟩ := deleteNodesWithTag_spec s n t hn
+  have hi' := coherent_step s (.deleteNodesWithTag n t) h
+  have hok : (View.nodesWithTag n t).ok (abs (step Cache.flags s (.deleteNodesWithTag n t)).1) = true := by
+    simp only [View.ok, decide_eq_true_eq]
+    rw [hl]; exact hn
+  rw [views_fresh _ _ hi' hok]
+  simp only [specView, specNWT, hk, List.filter_filter]
+  have : List.filter (fun a => ((abs (step Cache.flags s (.deleteNodesWithTag n t)).1).tag a == t &&
+      !((abs s).tag a == t))) ((abs s).kids n) = [] := by
+    apply List.filter_eq_nil_iff.mpr
+    intro c _
+    rw [ht c]
+    cases (abs s).tag c == t <;> simp
+  rw [this]; rfl
+
+/-- **One call with a subtree** (`n.AddNode(NewNode(…, children…))`, `doc.AddNode(subtree)`,
+    `doc.AddIndividual(ptr, children…)`, run by the model as the history `addTreeOps` /
+    `docAddTreeOps` / `addIndividualWithOps`, all or nothing): it keeps the invariant of reachable
+    states, so `views_fresh_decode` holds after it … -/
+theorem subtree_call_keeps_invariant (s : St) (ops : List Op) (h : TInv s) :
+    TInv (runAtomic Cache.flags s ops).1 := by
+  unfold runAtomic
+  split
+  · exact h
+  · exact tree_run ops s h
+
+/-- … and a call that is rejected (a tag `NewNode` panics for anywhere in the subtree, a receiver
+    that is not in the document) leaves no trace. -/
+theorem subtree_call_atomic (s : St) (ops : List Op) (hb : (runAtomic Cache.flags s ops).2 = .bad) :
+    (runAtomic Cache.flags s ops).1 = s := by
+  unfold runAtomic at hb ⊢
+  split
+  · rfl
+  · rename_i hc
+    rw [if_neg hc] at hb
+    cases hb
+
+/-- **Obligation on the code** (the event table is regenerated from `Tag.IsEvent()`): the four tags
+    the event accessors look up are event tags … -/
+theorem event_accessors_are_events : eventAccessorTags.all isEventTag = true := by decide
+
+/-- … hence `Births()`, `Baptisms()`, `Deaths()`, `Burials()` each answer a sub-sequence of
+    `AllEvents()` (same nodes, same order), on every document. -/
+theorem event_accessors_within_allEvents (a : Abs) (i : Id) (t : Str)
+    (ht : eventAccessorTags.contains t = true) : (specNWT a i t).Sublist (specAllEvents a i) := by
+  apply specNWT_sublist_allEvents
+  have hm : t ∈ eventAccessorTags := by simpa using ht
+  exact List.all_eq_true.mp event_accessors_are_events t hm
+
 /-! ## non-vacuity -/
 
 example : Inv demoInit := coherent_init _ _ (by decide) (by
@@ -365,6 +451,17 @@ example : (abs (run Cache.flags (ofForest demoForest) [.addNode 0 tNAME [75] [],
 example : psi (abs (run Cache.flags (ofForest demoForest) [.addNode 0 tNAME [75] [], .deleteNode 0 1]).1) 1 = 2 := by
   decide
 
+/-- NAME, BIRT, NAME below one individual: `DeleteNodesWithTag(NAME)` keeps the BIRT; a subtree
+    BIRT{DATE} added in one call; names and events as views -/
+def demoForest2 : Forest := [.mk tINDI [] [73, 49] [.mk tNAME [74] [] [], .mk tBIRT [] [] [], .mk tNAME [75] [] []]]
+example : (run Cache.flags (ofForest demoForest2)
+    [.read (.names 0), .read (.names 0), .deleteNodesWithTag 0 tNAME, .read (.names 0), .read (.allEvents 0),
+     .read (.eventsOf 0 tBIRT), .read (.eventsOf 0 tNAME)]).2 =
+    [.ids [some 1, some 3], .ids [some 1, some 3], .none, .ids [], .ids [some 2], .ids [some 2], .bad] := by decide
+example : (abs (runAtomic Cache.flags (ofForest demoForest2)
+    (addTreeOps 0 4 (.mk tDEAT [] [] [.mk tDATE [49] [] []]))).1).kids 4 = [5] := by decide
+example : (runAtomic Cache.flags (ofForest demoForest2)
+    (addTreeOps 0 4 (.mk tDEAT [] [] [.mk tHUSB [49] [] []]))).2 = .bad := by decide
 example : (View.nodesWithTag 0 tNAME).ok (abs demoInit) = true := by decide
 example : (Op.addChild 0 1).ok (abs (initOf childHeap [0, 1])) = true := by decide
 example : (Op.read (.indFamilies 1)).isRead = true := rfl
